@@ -577,6 +577,7 @@ func moreE2EOracles(r *e2e, t *tracker) []Oracle {
 		&oC10{r: r, t: t},
 		&oC07{r: r, t: t, anchors: anchors},
 		newC08(r, t),
+		&oC08hq{r: r, asked: map[string]map[string]bool{}, answer: map[string]map[string]bool{}, failed: map[string]bool{}},
 		&oC09{r: r, t: t},
 		&oC11{r: r, before: map[string]map[string]int{}},
 		&oC17{r: r, relT: map[string]int64{}, okPending: map[string]bool{}},
@@ -967,3 +968,75 @@ func (o *oC10) OnIdle(k *Kernel) {
 		}
 	}
 }
+
+// ---------------------------------------------------------------- C08 (crawl-HQ seencheck)
+
+type oC08hq struct {
+	r      *e2e
+	asked  map[string]map[string]bool // actor -> URLs asked in the call in progress
+	answer map[string]map[string]bool // actor -> URLs the HQ returned (= not seen)
+	failed map[string]bool
+}
+
+func (o *oC08hq) Name() string { return "C08hq" }
+func (o *oC08hq) OnEvent(k *Kernel, ev *Event) {
+	if !o.r.sc.Cfg.UseHQ {
+		return
+	}
+	switch ev.Point {
+	case "hq.seen.ask":
+		m := map[string]bool{}
+		if len(ev.raw) > 1 {
+			if us, ok := ev.raw[1].([]gocrawlhq.URL); ok {
+				for _, u := range us {
+					m[u.Value] = true
+				}
+			}
+		}
+		o.asked[ev.Actor] = m
+		delete(o.answer, ev.Actor)
+		delete(o.failed, ev.Actor)
+	case "hq.seen.answer":
+		m := map[string]bool{}
+		if len(ev.raw) > 1 {
+			if us, ok := ev.raw[1].([]gocrawlhq.URL); ok {
+				for _, u := range us {
+					m[u.Value] = true
+				}
+			}
+		}
+		o.answer[ev.Actor] = m
+		if len(ev.raw) > 2 && ev.raw[2] != nil {
+			o.failed[ev.Actor] = true
+		}
+	case "hq.seen.skip":
+		it := firstItem(ev.raw, 0)
+		if it == nil {
+			return
+		}
+		u := it.GetURL().Raw
+		k.Probe("c08-hq-skips")
+		if o.failed[ev.Actor] {
+			k.Violate("C08", "seen-only-if-recorded", "skipped-after-failed-hq-seencheck", fmt.Sprintf("%s marked seen although the crawl-HQ seencheck call failed", u))
+			return
+		}
+		if !o.asked[ev.Actor][u] {
+			k.Violate("C08", "seen-only-if-recorded", "skipped-without-asking-hq", fmt.Sprintf("%s marked seen but it was not part of the seencheck request", u))
+		} else if o.answer[ev.Actor][u] {
+			k.Violate("C08", "seen-only-if-recorded", "skipped-although-hq-said-unseen", fmt.Sprintf("%s marked seen although crawl HQ returned it as not seen", u))
+		}
+	case "pre.request":
+		// a URL that HQ omitted from its answer (= seen) must not be fetched
+		it := firstItem(ev.raw, 0)
+		if it == nil || it.IsSeed() {
+			return
+		}
+		u := it.GetURL().Raw
+		if o.asked[ev.Actor][u] && o.answer[ev.Actor] != nil && !o.answer[ev.Actor][u] && !o.failed[ev.Actor] {
+			k.Violate("C08", "seen-honoured", "hq-seen-url-not-skipped", fmt.Sprintf("crawl HQ reported %s as seen (omitted from its answer) but a request was built for it", u))
+		}
+		k.Probe("c08-hq-requests-judged")
+	}
+}
+func (o *oC08hq) OnQuiescent(k *Kernel) {}
+func (o *oC08hq) OnEnd(k *Kernel)       {}
